@@ -25,6 +25,8 @@ import (
 
 	seccomp "github.com/elastic/go-seccomp-bpf"
 	"github.com/elastic/go-seccomp-bpf/arch"
+
+	"verifharness/bpfvm"
 )
 
 type field struct {
@@ -352,8 +354,71 @@ func policies(cps []concPolicy, r *result) {
 	}
 }
 
+// ---- C18: the emitted YAML profile loads through the configuration path and allows exactly its names
+
+type closureItem struct {
+	YAML  string   `json:"yaml"`
+	Names []string `json:"names"`
+}
+
+func closure(items []closureItem, r *result) {
+	bad := func(f string, a ...interface{}) {
+		if len(r.Violations) < 25 {
+			r.Violations = append(r.Violations, fmt.Sprintf(f, a...))
+		}
+	}
+	for i, it := range items {
+		r.Checked++
+		pol, err := loadConfig([]byte(it.YAML))
+		if err != nil {
+			bad("profile %d does not load through the configuration path: %v\n%s", i, err, it.YAML)
+			continue
+		}
+		seccomp.VerifSetArch(pol, arch.X86_64)
+		insts, err := pol.Assemble()
+		if err != nil {
+			bad("profile %d does not compile: %v\n%s", i, err, it.YAML)
+			continue
+		}
+		raw, err := bpf.Assemble(insts)
+		if err != nil {
+			bad("profile %d: raw encoding fails: %v", i, err)
+			continue
+		}
+		if err := bpfvm.KernelAccepts(raw); err != nil {
+			bad("profile %d compiles to a program the kernel would refuse: %v\n%s", i, err, it.YAML)
+			continue
+		}
+		allowed := map[string]bool{}
+		for _, n := range it.Names {
+			allowed[n] = true
+		}
+		if len(it.Names) > 0 {
+			r.NonTrivial++
+		}
+		nrs := []int{}
+		for n := range arch.X86_64.SyscallNumbers {
+			nrs = append(nrs, n)
+		}
+		nrs = append(nrs, 5000, 0x3fffffff, 336, 400)
+		for _, n := range nrs {
+			d := bpfvm.Data{uint32(n), uint32(arch.X86_64.ID)}
+			got, _, verr := bpfvm.Run(raw, &d)
+			name, listed := arch.X86_64.SyscallNumbers[n]
+			want := uint32(0x00050001)
+			if listed && allowed[name] {
+				want = 0x7fff0000
+			}
+			if verr != nil || got != want {
+				bad("profile %d: syscall %d (%s) gets %#x, expected %#x (names %v)", i, n, name, got, want, it.Names)
+				break
+			}
+		}
+	}
+}
+
 func main() {
-	mode := flag.String("mode", "tags", "tags | parse | policies")
+	mode := flag.String("mode", "tags", "tags | parse | policies | closure")
 	flag.Parse()
 	r := result{Violations: []string{}}
 	switch *mode {
@@ -367,6 +432,13 @@ func main() {
 			os.Exit(3)
 		}
 		parse(cases, &r)
+	case "closure":
+		var items []closureItem
+		if err := json.NewDecoder(os.Stdin).Decode(&items); err != nil {
+			fmt.Fprintln(os.Stderr, err)
+			os.Exit(3)
+		}
+		closure(items, &r)
 	case "policies":
 		var cps []concPolicy
 		if err := json.NewDecoder(os.Stdin).Decode(&cps); err != nil {
